@@ -1,8 +1,8 @@
 import Ledger.Proofs.ReadsSqlRun
 
 /-!
-C05 (SQL leg, bridge to the regenerated read SQL) — BOUNDED obligations, part 1: feature gates and
-the `sum(case when …)` window shapes.
+C05 (SQL leg, bridge to the regenerated read SQL) — BOUNDED obligations, part 1: the `sum(case when …)` window shapes (feature
+gates: `Props/C35q.lean`).
 
 `Ledger.Generated.ReadSql` (translator `t1_readsql`) holds the statements the REAL store renders for
 every read shape. Each theorem below is a finite fact checked by kernel evaluation
@@ -19,15 +19,6 @@ namespace Ledger.C05q
 open Ledger.Reads.SqlRun Ledger.Generated
 
 set_option maxRecDepth 100000
-
-/-- **Feature gates**: for every captured read shape and each of the feature sets default /
-    metadata-history off / effective volumes off / MOVES_HISTORY off, the real code rejects the call
-    (missing-feature / invalid-query) before rendering any SQL exactly when `Ledger.Reads` says so
-    (e.g. every PIT / OOT volumes window without MOVES_HISTORY — also with a start time only). -/
-theorem read_gates_match_model : gatesAgree ReadSql.gates = true := by decide +kernel
-
-/-- the table is complete: 18 shapes × 4 feature sets -/
-theorem read_gates_complete : ReadSql.gates.length = 72 := by decide +kernel
 
 /-- **Window volumes, history A** (back-dated transaction, tied timestamps, a repeated account and a
     self-posting in one transaction, two assets): PIT on / before the tie, PIT+OOT and OOT alone in
